@@ -60,6 +60,8 @@ $"c d" = comdat any
 @big = global i64 u0x8000000000000000
 @ce = global i8* getelementptr inbounds ([4 x i8], [4 x i8]* @str, i64 0, i64 1)
 @"salt SALTN" = global i64 SALTN, section "sec SALTN", align SALTAL
+@blob = constant [300 x i8] c"SALTBLOB"
+@"SALTLONGNAME" = global i64 SALTN, section "SALTLONGNAME"
 define cc SALTCC i32 @"f n"(i32 %"x y", %"t y"* %p) gc "my gc" {
 "en try":
   %"y z" = add nsw i32 %"x y", 1
@@ -75,7 +77,7 @@ else:
 }
 attributes #0 = { "k y"="v \5C" }
 !n\20m = !{!0}
-!0 = !{!"s t\00", i32 7, !"salt SALTN"}
+!0 = !{!"s t\00", i32 7, !"salt SALTN", !"SALTBLOB"}
 `
 
 const c13P3 = `@0 = global i32 1
@@ -130,7 +132,9 @@ var c13salt int
 func c13salted(text string) string { return c13saltedN(text, c13salt) }
 
 func c13saltedN(text string, n int) string {
-	r := strings.NewReplacer("SALTCC", fmt.Sprint(64+n%65000), "SALTN", fmt.Sprint(n), "SALTAL", fmt.Sprint(n+1))
+	// (SALTBLOB: 300 bytes, SALTLONGNAME: 200 bytes -- sizes beyond any "small value" fast path or
+	// "cache only the large ones" threshold)
+	r := strings.NewReplacer("SALTCC", fmt.Sprint(64+n%65000), "SALTBLOB", fmt.Sprintf("%0300d", n), "SALTLONGNAME", fmt.Sprintf("long name %0190d", n), "SALTN", fmt.Sprint(n), "SALTAL", fmt.Sprint(n+1))
 	return r.Replace(text)
 }
 
